@@ -22,6 +22,7 @@ EXPLANATION = (
     ' The backup context of the document merge is not wrapped in buffered mode.'
     " The proxy's copy() has no skip of its own (C13-k); a key strategy is built from --key only for a non-empty pattern; collected changes are not applied by a shallow update(); the in-memory roll-back copy depends on nothing but 'empty / no file name / file missing'."
     ' C14-c follows the descent into a self-recursive helper method of ByKey. (j) Project.clone cannot pass dirs_exist_ok to the tree copy (C14-j).'
+    ' (k) `signac sync`: the file strategy is looked up in FileSync and the --key pattern is applied anchored (C14-k); (l) Job.sync / Project.sync do not re-bind the options they pass on (C14-l).'
 )
 UNDECIDED = "The 'iff' for every conflict shape and exact equality of the document with its pre-sync content after a roll-back are not decided."
 
